@@ -105,6 +105,19 @@ static void stageTrees(Env& env, const std::string& stage, int V, size_t sub) {
   env.parallel(o);
 }
 
+
+// Structural reference for Project with ANY (also non-idempotent, non-commutative) leaf operation: a reduced ordered diagram has a node for variable v
+// exactly where the (sub)function depends on v, so the result is determined by the function table alone:
+//   P(f) = f if f is constant; else with v the highest variable f depends on: g0 = P(f|v=0), g1 = P(f|v=1); op(g0,g1) pointwise if v is projected, else ite(v,g1,g0)
+static Tab refProject(const Tab& f, int V, int mask, int opk) {
+  int v = -1; for (int k = V - 1; k >= 0 && v < 0; k--) for (size_t x = 0; x < f.size(); x++) if (f[x] != f[x ^ (size_t(1) << k)]) { v = k; break; }
+  if (v < 0) return f;
+  Tab f0(f.size()), f1(f.size()); for (size_t x = 0; x < f.size(); x++) { f0[x] = f[x & ~(size_t(1) << v)]; f1[x] = f[x | (size_t(1) << v)]; }
+  Tab g0 = refProject(f0, V, mask, opk), g1 = refProject(f1, V, mask, opk), r(f.size());
+  for (size_t x = 0; x < f.size(); x++) r[x] = (mask >> v & 1) ? op2(opk, g0[x], g1[x]) : ((x >> v & 1) ? g1[x] : g0[x]);
+  return r;
+}
+
 // structural operations on EVERY function {0,1}^V -> {0,1,2}
 static void stageAllFunctions(Env& env, const std::string& stage, int V) {
   uint64_t nf = 1; for (int x = 0; x < (1 << V); x++) nf *= 3;
@@ -124,6 +137,9 @@ static void stageAllFunctions(Env& env, const std::string& stage, int V) {
       if (comb == 0) { MaxF fn; M r = m->Project(pred, fn); W().check(c, r, e, V, "Project(max)", nm + " removing variable mask " + std::to_string(mask)); }
       else { MinF fn; M r = m->Project(pred, fn); W().check(c, r, e, V, "Project(min)", nm + " removing variable mask " + std::to_string(mask)); }
       c.count("project"); }
+    // Project with non-idempotent / non-commutative leaf operations against the structural reference
+    for (int mask = 1; mask < (1 << V); mask++) for (int opk : {0, 2}) { Tab e = refProject(f, V, mask, opk); auto pred = [mask](size_t var) { return (mask >> var & 1) != 0; };
+      Op2 fn(opk); M r = m->Project(pred, fn); W().check(c, r, e, V, opk == 0 ? "Project((a+b)%3)" : "Project((2a+b)%3)", nm + " removing variable mask " + std::to_string(mask)); c.count("project_nonidempotent"); }
     // Rename: every order-preserving injection of the V variables into V+2 variables
     { int V2 = V + 2; std::vector<int> rho(V); std::function<void(int, int)> rec = [&](int i, int from) { if (i == V) { Tab e(1 << V2); for (int y = 0; y < (1 << V2); y++) { int x = 0; for (int k = 0; k < V; k++) if (y >> rho[k] & 1) x |= 1 << k; e[y] = f[x]; }
           std::vector<int> rr = rho; M r = m->Rename([rr](size_t var) { return (size_t)rr[var]; }); std::string rs; for (int k = 0; k < V; k++) rs += std::to_string(k) + "->" + std::to_string(rho[k]) + " "; W().check(c, r, e, V2, "Rename", nm + " renaming " + rs); c.count("rename"); return; }
